@@ -4,28 +4,31 @@ export GOFLAGS=-mod=mod GOPROXY=off GOSUMDB=off GOTOOLCHAIN=local
 p=$1; n=$2; wt=/tmp/seed/$p; out=$wt/out/$n
 cd $wt || exit 2
 git checkout -q -- . ; git clean -qfd -e out
-mod=grpcgcp; dir=grpcgcp; flags=""
+mod=grpcgcp; dir=grpcgcp; flags=""; pkg2=""; pkg3=""
 case $p/$n in
  C10/2) dir=grpcgcp; flags=-race;;
  C10/3) dir=grpcgcp/multiendpoint; flags=-race;;
  C13/*|C14/*) dir=grpcgcp/multiendpoint;;
- C10/*|C09/1) flags=-race;;
+ C10/*|C09/1|C09/2) flags=-race;;
  C18/3) mod=spanner_prober; dir=spanner_prober;;
  C18/*) mod=spanner_prober; dir=spanner_prober/prober;;
  C19/*) mod=e2e-checksum; dir=e2e-checksum;;
 esac
 cp $out/zz_demo*_test.go $wt/$dir/ 2>/dev/null || cp $out/*_test.go $wt/$dir/
+# demos that span two packages
+if [ -f $out/zz_demo_me_test.go ]; then rm -f $wt/$dir/zz_demo_me_test.go; cp $out/zz_demo_me_test.go $wt/grpcgcp/multiendpoint/; pkg3=./multiendpoint; fi
+if [ -f $out/zz_demo_main_test.go ]; then rm -f $wt/$dir/zz_demo_test.go; cp $out/zz_demo_test.go $wt/spanner_prober/prober/; pkg2=./prober; fi
 pkg=./${dir#$mod}; pkg=${pkg%/}; [ "$pkg" = "." ] || pkg=./${dir#$mod/}; [ "$dir" = "$mod" ] && pkg=.
 runx='Demo|TestZZ'
 echo "== $p/$n demo on unmodified tree ($dir $flags)"
-(cd $mod && timeout 600 go test $flags -vet=off -count=1 -timeout 300s -run "$runx" $pkg 2>&1 | tail -3)
+(cd $mod && timeout 600 go test $flags -vet=off -count=1 -timeout 300s -run "$runx" $pkg $pkg2 $pkg3 2>&1 | tail -3)
 git apply $out/patch.diff || { echo "PATCH DOES NOT APPLY"; exit 3; }
 (cd $mod && go build -o /dev/null ./... ) || { echo "BUILD FAILS"; exit 4; }
 echo "== $p/$n demo with the change"
-(cd $mod && timeout 600 go test $flags -vet=off -count=1 -timeout 300s -run "$runx" $pkg 2>&1 | grep -E "^(ok|FAIL|---|panic|WARNING: DATA RACE)" | sort | uniq -c | head -8)
+(cd $mod && timeout 600 go test $flags -vet=off -count=1 -timeout 300s -run "$runx" $pkg $pkg2 $pkg3 2>&1 | grep -E "^(ok|FAIL|---|panic|WARNING: DATA RACE)" | sort | uniq -c | head -8)
 if [ "$3" = suite ]; then
   echo "== $p/$n full suite with the change (demo removed)"
-  rm -f $wt/$dir/zz_*_test.go
+  rm -f $wt/$dir/zz_*_test.go $wt/grpcgcp/multiendpoint/zz_*_test.go $wt/spanner_prober/prober/zz_*_test.go
   for try in 1 2 3; do
     (cd $mod && go test -vet=off -count=1 ./... 2>&1 | grep -E "^(ok|FAIL|---|panic)|address already|refused" | head -8) > /tmp/seed/suite_cur.log 2>&1
     cat /tmp/seed/suite_cur.log
